@@ -20,6 +20,7 @@ import (
 	kemtypes "github.com/flant/shell-operator/pkg/kube_events_manager/types"
 	"github.com/flant/shell-operator/pkg/metric"
 	"github.com/flant/shell-operator/pkg/utils/measure"
+	"github.com/flant/shell-operator/pkg/utils/verifhook"
 )
 
 type resourceInformer struct {
@@ -159,6 +160,7 @@ func (ei *resourceInformer) getCachedObjects() []kemtypes.ObjectAndFilterResult 
 		res = append(res, *obj)
 	}
 	ei.cacheLock.RUnlock()
+	verifhook.Yield("ri.getCachedObjects.betweenCopyAndReset", ei.Namespace, ei.Name)
 
 	// Reset eventBuf if needed.
 	ei.eventBufLock.Lock()
@@ -373,6 +375,7 @@ func (ei *resourceInformer) handleWatchEvent(object interface{}, eventType kemty
 		ei.cacheLock.Unlock()
 	}
 
+	verifhook.Yield("ri.handleWatchEvent.afterCacheUpdate", ei.Namespace, ei.Name)
 	// Fire KubeEvent only if needed.
 	if ei.shouldFireEvent(eventType) {
 		log.Debug("send KubeEvent",
@@ -394,6 +397,7 @@ func (ei *resourceInformer) handleWatchEvent(object interface{}, eventType kemty
 		ei.eventBufLock.Lock()
 		eventCbEnabled = ei.eventCbEnabled
 		ei.eventBufLock.Unlock()
+		verifhook.Yield("ri.handleWatchEvent.afterFlagRead", ei.Namespace, ei.Name)
 
 		if eventCbEnabled {
 			// Pass event info to callback.
@@ -449,6 +453,9 @@ func (ei *resourceInformer) shouldFireEvent(checkEvent kemtypes.WatchEventType) 
 }
 
 func (ei *resourceInformer) start() {
+	if verifhook.Skip("ri.start") {
+		return
+	}
 	log.Debug("RUN resource informer", slog.String("debugName", ei.Monitor.Metadata.DebugName))
 
 	go func() {
